@@ -752,6 +752,17 @@ func (t *tie) execBlock(stmts []ast.Stmt, en *env) []node {
 	return out
 }
 
+var nullDecodeRe = regexp.MustCompile(`^\w+(\.\w+)*\.Valid$`)
+
+func onlyKind(ns []node, kind string) bool {
+	for _, n := range ns {
+		if n.kind != kind {
+			return false
+		}
+	}
+	return true
+}
+
 func dropKind(ns []node, kind string) []node {
 	var out []node
 	for _, n := range ns {
@@ -986,6 +997,10 @@ func (t *tie) execIf(x *ast.IfStmt, en *env) []node {
 		}
 	}
 	t.mergeEnvs(en, cond, ea, eb)
+	if nullDecodeRe.MatchString(cond) && x.Else == nil && onlyKind(na, "assign") {
+		// `if col.Valid { field = col.String }`: decoding of a NULLable column, not part of the skeleton
+		return out
+	}
 	out = append(out, node{kind: "if", text: cond, then: na, els: nb, hasElse: x.Else != nil})
 	return out
 }
